@@ -690,6 +690,8 @@ udp_recv_data(udp_ep *ep, udp_sp_msg *dreq, size_t len, const nng_sockaddr *sa)
 	if (len <= ep->copymax) {
 		nni_stat_inc(&ep->st_rcv_copy, 1);
 		if (nng_msg_alloc(&msg, len) != 0) {
+			// give the receive buffer its size back
+			nni_msg_realloc(ep->rx_payload, ep->rcvmax);
 			if (p->npipe != NULL) {
 				nni_pipe_bump_error(p->npipe, NNG_ENOMEM);
 			}
@@ -705,6 +707,7 @@ udp_recv_data(udp_ep *ep, udp_sp_msg *dreq, size_t len, const nng_sockaddr *sa)
 		msg = ep->rx_payload;
 		if (nng_msg_alloc(&ep->rx_payload, ep->rcvmax) != 0) {
 			ep->rx_payload = msg; // make sure we put it back
+			nni_msg_realloc(ep->rx_payload, ep->rcvmax);
 			if (p->npipe != NULL) {
 				nni_pipe_bump_error(p->npipe, NNG_ENOMEM);
 			}
